@@ -30,6 +30,18 @@ def _facts(test, pol):
     return [(test, pol)]
 
 
+def _always_exits(stmts):
+    if not stmts:
+        return False
+    last = stmts[-1]
+    if isinstance(last, (ast.Return, ast.Raise, ast.Continue, ast.Break)):
+        return True
+    if isinstance(last, ast.If):
+        return bool(last.orelse) and _always_exits(last.body) and \
+            _always_exits(last.orelse)
+    return False
+
+
 def cond_paths(stmts, conds=None):
     conds = conds or []
     out = []
@@ -37,6 +49,13 @@ def cond_paths(stmts, conds=None):
         if isinstance(st, ast.If):
             out += cond_paths(st.body, conds + _facts(st.test, True))
             out += cond_paths(st.orelse, conds + _facts(st.test, False))
+            # early exit: what follows an `if` whose body always leaves runs
+            # under the negated test (if/elif chains written as guards)
+            if _always_exits(st.body) and not _always_exits(st.orelse):
+                conds = conds + _facts(st.test, False)
+            elif st.orelse and _always_exits(st.orelse) and \
+                    not _always_exits(st.body):
+                conds = conds + _facts(st.test, True)
         elif isinstance(st, (ast.For, ast.While)):
             out.append((conds, st))
             out += cond_paths(st.body, conds)
